@@ -239,7 +239,12 @@ class Gen04(l1.Gen):
         r = self.rng
         seq = self._seq()
         filters = filters if filters is not None else [None] * npairs
+        # one UE address per session: two live sessions with one address share their sessions_downlink / terminations keys
+        used = self.__dict__.setdefault("_ues04", set())
         ue = l1.ip(10, 60, r.randrange(250), r.randrange(1, 250))
+        while ue in used:
+            ue = l1.ip(10, 60, r.randrange(250), r.randrange(1, 250))
+        used.add(ue)
         qspecs = qers if qers is not None else [self.new_qer(q) for q in range(1, nqers + 1)]
         qids = [q["id"] for q in qspecs]
         pdrs, fars = [], []
